@@ -6,7 +6,15 @@ From Coq Require Import Strings.String Strings.Byte.
 From Coq Require Import List NArith.
 From Goit Require Import Bytes Tree Index IndexFacts.
 From Goit Require Import Obj World Repo ExactFacts.
+From Goit Require Import Bridge.
 Import ListNotations.
+
+(* T0 (tie to the source): every regexp literal of the current Go source denotes
+   the same language, with the same anchoring, as the pattern of the model — proved
+   by running the verified equivalence checker on SrcRegex.v, which is regenerated
+   from /repo on every run (see Bridge.v) *)
+Theorem C04_source_patterns_are_the_models : source_patterns_agree.
+Proof. exact source_patterns. Qed.
 
 (* staging path p with id: afterwards p is staged with exactly that id, every
    other entry is unchanged, the list stays strictly ascending *)
@@ -119,3 +127,4 @@ Print Assumptions C04_add_unknown_refused.
 Print Assumptions C04_rm_dir_spec.
 Print Assumptions C04_rm_frame.
 Print Assumptions C04_rm_unknown_refused.
+Print Assumptions C04_source_patterns_are_the_models.
